@@ -8,7 +8,7 @@ INLINE = [
 ]
 
 
-def build():
+def build(variant=None):
     reg = Registry()
     kernels.register(reg)
     parser.register(reg)
@@ -19,4 +19,7 @@ def build():
     contrast.register(reg)
     conversions.register(reg)
     reg.mark_inline(*INLINE)
+    if variant == 'c12':
+        from . import bulk
+        bulk.register_c12(reg)
     return reg
